@@ -151,14 +151,30 @@ def _cases(tier, alphabet="ab", L=None, compiled=False):
             yield {"corpus": [a, b], "kw": kw, "tests": tests}
 
 
+def _triple_cases(tier):
+    """corpora of three strings: short strings whose only merge is learned AFTER other merges (so that replaying the
+    merge list on a string that is already down to two codes matters), repeated strings, empty strings"""
+    pool = ["", "a", "ab", "ba", "aaaa", "abab", "bbb", "aab"] if tier == "quick" else ["", "a", "ab", "ba", "aaaa", "abab", "bbb", "aab", "aaaaa", "babab", "bbbbbb"]
+    tests = sigma("ab", 3) + ["z", "abababab"]
+    for mvs in (2, 10000):
+        for mto in (1, 2):
+            kw = {"max_vocab_size": mvs, "min_token_occurrence": mto, "max_char_code": 0}
+            for t in itertools.product(pool, repeat=3):
+                yield {"corpus": list(t), "kw": kw, "tests": tests}
+
+
 def subchecks(tier, seed):
     g1 = lambda: _cases(tier)
+    g0 = lambda: _triple_cases(tier)
     g2 = lambda: _cases("quick", alphabet="é€", L=3)
     g3 = lambda: _cases("quick", L=3, compiled=True)
     return [
         Sub("bpe_roundtrip", "I", g1, run_case, total=sum(1 for _ in g1()),
             describe="corpora of 1-2 strings over {a,b} (length <= 4/5) x max_vocab_size{1,2,3,10000} x min_token_occurrence{1,2} x max_char_code{0,'ascii',97}; transform on all strings of length <= 3, unseen characters, long repeats",
             nontrivial_rule="a learned code appears in some encoding"),
+        Sub("bpe_triples", "I", g0, run_case, total=sum(1 for _ in g0()),
+            describe="all ordered triples over a pool of short and repetitive strings x max_vocab_size{2,10000} x min_token_occurrence{1,2}",
+            nontrivial_rule="as above"),
         Sub("bpe_unicode", "I", g2, run_case, total=sum(1 for _ in g2()),
             describe="same with the alphabet {e-acute, euro sign} (characters above 'ascii'/97 limits) up to length 3", nontrivial_rule="as above"),
         Sub("bpe_compiled", "N", g3, run_case, total=sum(1 for _ in g3()),
